@@ -1,8 +1,12 @@
 """E2Ecap — the composed model of the whole ranking task WITH A BINDING per-batch combination cap (coq/E2E/CapCompose.v:
-Compose.v with C07's sampler threaded through the batches) against the REAL task, compared on
-  (a) the whole pairwise_ranks.tsv,
-  (b) combination_estimation_counts.json,
-  (c) the pairs every batch actually evaluated.
+Compose.v with C07's sampler in the loop) against the REAL task.  The correspondence is RELATIONAL, as for C06/C07: property C07
+leaves the tie-breaking among equally often evaluated candidates free, so the pairs the implementation evaluated in every batch
+are an INPUT of the model:
+  (c) they must be an admissible selection history: `sels_ok` = C07's checker `valid_runb` on `derived_obs`, evaluated in Coq;
+  (a) the whole pairwise_ranks.tsv must be `e2ecap_core_sel` for THOSE selections (median over exactly the batches that evaluated
+      the pair);
+  (b) combination_estimation_counts.json must be `cap_counts_sel` (= Sampler.sel_count) for THOSE selections.
+Whether the selections equal the transcription Sampler.step (stable sort) is only counted (tie_breaking_differs_from_transcription).
 
 Not one of the 20 properties: an extra obligation (like E2E) that ties C07 into the end-to-end composition.
 Generators, float-vs-rational decision, table comparison and shrink variants are imported from props/e2e.py."""
@@ -24,11 +28,13 @@ RULE = ("generated csv-raw files (2-5 columns = 2..15 candidate pairs, label at 
         "terminators from the E2E generator) with small B and 1..25 batches (mostly 3..12; a few files with a tail batch of 1025 "
         "rows), combination_number_upper_bound chosen to BIND (1 .. #candidates-1; 75 %) or not (#candidates, #candidates+1, 2^15), "
         "both target_ranking_only modes, heuristic max-value-coverage / Constant, run through the real outrank_task_conduct_ranking "
-        "(args from the repository's parser, serial pool object) and through e2ecap_eval evaluated by vm_compute on the same text; "
+        "(args from the repository's parser, serial pool object); the pairs it evaluated per batch are judged by C07's checker and fed to "
+        "e2ecap_core_sel / cap_counts_sel, evaluated by vm_compute on the same text; "
         "non-trivial = the cap binds and at least two batches are processed; distinct = distinct (text, config)")
 THEOREMS = ["E2Ecap_spec", "E2Ecap_contributing_def", "E2Ecap_spec_constant", "E2Ecap_fair", "E2Ecap_counts", "E2Ecap_nonbinding",
             "E2Ecap_selections", "E2Ecap_shuffle_independent", "E2Ecap_batch_rows_instance", "E2Ecap_text_run",
-            "E2Ecap_wellformed_run", "E2Ecap_examples"]
+            "E2Ecap_wellformed_run", "E2Ecap_sels_ok_def", "E2Ecap_spec_rel", "E2Ecap_spec_constant_rel", "E2Ecap_fair_rel",
+            "E2Ecap_counts_rel", "E2Ecap_sel_instance", "E2Ecap_checker_complete", "E2Ecap_examples"]
 HEADER = ("From Coq Require Import List NArith ZArith QArith.\nFrom Outrank Require Pipeline.Sampler.\n"
           "From Outrank Require Import E2E.Compose E2E.CapCompose.\nImport ListNotations.\nOpen Scope N_scope.")
 H_COV, H_CONST = E.H_COV, E.H_CONST
@@ -155,10 +161,41 @@ def load_corpus():
 
 
 # ---------------------------------------------------------------------------------------------------------------
-# Coq side
+# Coq side (relational: the implementation's per-batch selections are an INPUT of the model)
 
-def coq_expr(case, fn="e2ecap_eval"):
-    return "%s %s %s" % (fn, E.coq_cfg(case), vlib.strlit(case["text"]))
+def impl_psels(case, res):
+    """The pairs every batch evaluated, with multiplicity, read off the triplets mixed_rank_graph returned:
+    Constant -> the triplets' pairs; otherwise the rows come as (mirror, triplet) couples -> the triplet of every couple.
+    -> (psels, rows_problem): rows_problem names a batch whose rows are not such couples (layer C06)."""
+    const = case["heuristic"] == H_CONST
+    psels, problem = [], None
+    for k, b in enumerate(res.get("batches") or []):
+        pairs = [tuple(p) for p in (b.get("pairs") or [])]
+        if b.get("pairs") is None and problem is None:
+            problem = "batch %d (0-based): no triplets returned (%s)" % (k, b.get("pairs_error"))
+        if const:
+            psels.append(pairs)
+            continue
+        ok = len(pairs) % 2 == 0 and all(pairs[2 * i] == (pairs[2 * i + 1][1], pairs[2 * i + 1][0]) for i in range(len(pairs) // 2))
+        if ok:
+            psels.append([pairs[2 * i + 1] for i in range(len(pairs) // 2)])
+        else:
+            if problem is None:
+                problem = "batch %d (0-based): the %d rows are not (mirror row, row) couples: %s" % (k, len(pairs), pairs[:6])
+            seen = []
+            for pr in pairs:                      # best effort: the distinct unordered pairs
+                if ukey(pr) not in [ukey(x) for x in seen]:
+                    seen.append(pr)
+            psels.append(seen)
+    return psels, problem
+
+
+def psels_lit(psels):
+    return "[" + "; ".join("[" + "; ".join("(%s, %s)" % (vlib.strlit(a), vlib.strlit(b)) for a, b in sel) + "]" for sel in psels) + "]"
+
+
+def coq_expr(case, psels, fn="e2ecap_eval_rel"):
+    return "%s %s %s %s" % (fn, E.coq_cfg(case), vlib.strlit(case["text"]), psels_lit(psels))
 
 
 def coq_eval(tag, exprs, weights, jobs=12, timeout=1500):
@@ -204,17 +241,24 @@ dec = E.dec
 
 
 def model_view(mval):
-    """e2ecap_eval -> dict(status, table [(A,B,num,den)], counts {str(tuple): n}, sels [[(a,b)]], ncands, sizes)"""
-    status, table, counts, sels, (ncands, sizes) = mval
-    return {"status": status, "table": table,
-            "counts": {str((dec(p[0]), dec(p[1]))): n for (p, n) in [((a, b), n) for a, b, n in counts]},
-            "sels": [[(dec(a), dec(b)) for a, b in sel] for sel in sels],
-            "ncands": ncands, "sizes": list(sizes)}
+    """e2ecap_eval_rel -> dict"""
+    status, ok, steps, table, counts, same, (ncands, sizes), isels = mval
+    return {"status": status, "ok": bool(ok), "steps": [bool(x) for x in steps], "table": table,
+            "counts": {str((dec(a), dec(b))): n for a, b, n in counts}, "same": bool(same),
+            "ncands": ncands, "sizes": list(sizes), "isels": [list(s) for s in isels]}
 
 
 def run_cases(cases, root, detail=False):
     return vlib.run_impl("impl_e2ecap.py", {"cases": [{k: c[k] for k in KEYS} for c in cases], "root": root,
                                             "detail": detail})["results"]
+
+
+def run_both(cases, root, tag, detail=False):
+    """implementation first (its selections are the model's input), then the model"""
+    results = run_cases(cases, root, detail)
+    ps = [impl_psels(c, r) for c, r in zip(cases, results)]
+    mvals = coq_eval(tag, [coq_expr(c, p[0]) for c, p in zip(cases, ps)], [len(c["text"]) for c in cases])
+    return results, ps, mvals
 
 
 # ---------------------------------------------------------------------------------------------------------------
@@ -233,7 +277,6 @@ def impl_counts_summary(res):
         out.append("implementation's reported counts: min %s max %s (%s)" % (
             min(vals), max(vals), "fair" if max(vals) - min(vals) <= 1 else "NOT fair: differ by more than one"))
         tally = Counter()
-        const_like = True
         for b in res.get("batches") or []:
             seen = Counter(ukey(p) for p in (b.get("pairs") or []))
             for k in seen:
@@ -253,46 +296,37 @@ def impl_counts_summary(res):
     return "; ".join(out)
 
 
-def compare_sels(case, res, mv):
-    """(c) the pairs every batch evaluated = the model's selection of that batch"""
-    ib = res.get("batches") or []
-    isz = [b.get("n") for b in ib]
-    if isz != mv["sizes"]:
-        return ("the batches are the full chunks of B accepted rows (+ a tail of more than 1024)", "batch sizes implementation %s, model %s" % (
-            isz[:12], mv["sizes"][:12]), L_STREAM)
-    const = case["heuristic"] == H_CONST
-    per = 1 if const else 2
-    for k, (b, msel) in enumerate(zip(ib, mv["sels"])):
-        pairs = b.get("pairs")
-        if pairs is None:
-            return ("every batch returns its triplets", "batch %d: %s" % (k, b.get("pairs_error")), L_SAMPLER)
-        got = Counter(ukey(p) for p in pairs)
-        want = set(ukey(p) for p in msel)
-        if len(got) != len(want):
-            return ("each batch evaluates exactly min(cap, #candidates) distinct candidates",
-                    "batch %d (0-based) evaluated %d distinct pairs (%d rows), model %d = min(cap %d, #candidates %d): implementation %s, model %s" % (
-                        k, len(got), len(pairs), len(msel), case["cap"], mv["ncands"], sorted(got), sorted(want)), L_SAMPLER)
-        if set(got) != want:
-            return ("each batch evaluates the least-evaluated candidates (ties: candidate-list order), each once",
-                    "batch %d (0-based): implementation evaluated %s, model selects %s" % (k, sorted(got), sorted(want)), L_SAMPLER)
-        if any(v != per for v in got.values()):
-            return ("every evaluated pair yields its row and the mirrored row (Constant: one row)",
-                    "batch %d (0-based): rows per pair %s, expected %d each" % (k, sorted(got.items()), per), L_ROWS)
-        if const:
-            if sorted(tuple(p) for p in pairs) != sorted(msel):
-                return ("Constant: every selected candidate once, in the listed orientation",
-                        "batch %d: implementation %s, model %s" % (k, sorted(tuple(p) for p in pairs), sorted(msel)), L_SAMPLER)
-        else:
-            oc = Counter(tuple(p) for p in pairs)
-            for a, b2 in msel:
-                if (a == b2 and oc[(a, b2)] != 2) or (a != b2 and (oc[(a, b2)] != 1 or oc[(b2, a)] != 1)):
-                    return ("every evaluated pair yields its row and the mirrored row", "batch %d pair (%s, %s): rows %s" % (
-                        k, a, b2, sorted(oc.items())), L_ROWS)
-    return None
+def explain_rejection(case, psels, mv):
+    """sels_ok = false: name the first rejected batch and the clause of C07's relation it breaks (the verdict is Coq's)."""
+    steps, isels, nc = mv["steps"], mv["isels"], mv["ncands"]
+    if len(isels) != len(mv["sizes"]):
+        return ("one selection per processed batch", "%d selections for %d batches" % (len(isels), len(mv["sizes"])))
+    k = next((i for i, s in enumerate(steps) if not s), None)
+    if k is None:
+        return ("every batch's selection is accepted by C07's relation", "valid_runb false, steps %s" % steps[:12])
+    sel, names = isels[k], psels[k]
+    want = min(nc, case["cap"])
+    prior = Counter(i for s in isels[:k] for i in s)
+    if any(i >= nc for i in sel):
+        bad = [names[j] for j, i in enumerate(sel) if i >= nc]
+        return ("every evaluated pair is one of the candidates", "batch %d (0-based) evaluated %s, not a candidate pair" % (k, bad[:3]))
+    if len(set(sel)) != len(sel):
+        dup = [names[j] for j, i in enumerate(sel) if sel.count(i) > 1]
+        return ("each batch evaluates exactly min(cap, #candidates) DISTINCT candidates", "batch %d (0-based) evaluated %s more than once: %s" % (
+            k, sorted(set(dup))[:3], names))
+    if len(sel) != want:
+        return ("each batch evaluates exactly min(cap, #candidates) distinct candidates",
+                "batch %d (0-based) evaluated %d pairs, min(cap %d, #candidates %d) = %d: %s" % (k, len(sel), case["cap"], nc, want, names))
+    worst = max(sel, key=lambda i: prior[i])
+    skipped = [i for i in range(nc) if i not in sel and prior[i] < prior[worst]]
+    return ("each batch evaluates the LEAST-evaluated candidates (ties free)",
+            "batch %d (0-based) evaluated %s, already evaluated %d times before, while candidate id %s was evaluated only %s times and is "
+            "left out; selections so far (candidate ids) %s" % (k, names[sel.index(worst)], prior[worst], skipped[:3],
+                                                               [prior[i] for i in skipped[:3]], isels[:k + 1]))
 
 
 def compare_counts(case, res, mv):
-    """(b) combination_estimation_counts.json = the model's final counter"""
+    """(b) combination_estimation_counts.json = the counts the implementation's own selections imply"""
     cnt = res.get("counts")
     if cnt is None:
         return ("combination_estimation_counts.json is written", "no file (%s)" % res.get("counts_error"), L_COUNTS)
@@ -306,13 +340,14 @@ def compare_counts(case, res, mv):
         only_m = sorted(set(want) - set(got))[:4]
         diff = [(k, got[k], want[k]) for k in sorted(set(got) & set(want)) if got[k] != want[k]][:4]
         return ("the reported count of every candidate = the number of batches that selected it (never-selected candidates: 0)",
-                "keys only in the implementation's file %s, only in the model %s, (key, implementation, model) %s" % (only_i, only_m, diff),
+                "keys only in the implementation's file %s, only in the model %s, (key, implementation, its own selections) %s" % (only_i, only_m, diff),
                 L_COUNTS)
     return None
 
 
-def compare(case, res, mval):
-    """-> None when the run agrees with the model, else (clause, detail, layer)."""
+def compare(case, res, ps, mval):
+    """-> None when the run is admissible and agrees with the relational model, else (clause, detail, layer)."""
+    psels, rows_problem = ps
     mv = model_view(mval)
     d = E.compare(case, res, (mv["status"], mv["table"]))
     if d is not None and d[0] == "excluded":
@@ -320,18 +355,25 @@ def compare(case, res, mval):
     early = mv["status"] != 0 or (not res.get("ok") and not E.known_constant_crash(case, res)) or res.get("pairwise") is None
     if early:
         return None if d is None else (d[0], d[1], "layer task control flow")
-    ds = compare_sels(case, res, mv)
-    if ds is not None:
-        return ds
+    isz = [b.get("n") for b in (res.get("batches") or [])]
+    if isz != mv["sizes"]:
+        return ("the batches are the full chunks of B accepted rows (+ a tail of more than 1024)", "batch sizes implementation %s, model %s" % (
+            isz[:12], mv["sizes"][:12]), L_STREAM)
+    if rows_problem is not None:
+        return ("every evaluated pair yields its row and the mirrored row (Constant: one row)", rows_problem, L_ROWS)
+    if not mv["ok"]:
+        clause, detail = explain_rejection(case, psels, mv)
+        return (clause, detail + " (C07's checker valid_runb on the implementation's selections = false, per batch %s)" % (
+            ["ok" if s else "REJECTED" for s in mv["steps"]][:16],), L_SAMPLER)
     dc = compare_counts(case, res, mv)
     if dc is not None:
         return dc
     if d is not None:
         clause = d[0]
         if clause.startswith("score = median"):
-            clause = "score = median over exactly the batches in which the sampler selected the pair, of max_(u,v) n_uv / n"
+            clause = "score = median over exactly the batches in which the pair was evaluated, of max_(u,v) n_uv / n"
         elif clause.startswith("pairs = "):
-            clause = "pairs = the requested ordered pairs selected in at least one batch (both orientations), nothing else"
+            clause = "pairs = the requested ordered pairs evaluated in at least one batch (both orientations), nothing else"
         return (clause, d[1], L_TABLE)
     return None
 
@@ -354,41 +396,6 @@ def diagnose_table(case, res_d, dval):
                 "and scores agree")
     except Exception as e:
         return "diagnosis failed: %s: %s" % (type(e).__name__, e)
-
-
-def relation_verdict(case, res, dval):
-    """C07's own boolean checker (Sampler.valid_runb on derived_obs) on the implementation's per-batch selections."""
-    try:
-        cands = [(dec(a), dec(b)) for a, b in dval[2]]
-        idx = {}
-        for i, p in enumerate(cands):
-            idx.setdefault(ukey(p), i)
-        sels = []
-        for b in res.get("batches") or []:
-            seen = []
-            for p in b.get("pairs") or []:
-                u = ukey(p)
-                if u not in idx:
-                    return "the implementation evaluated the pair %s, which is not a candidate" % (tuple(p),)
-                if idx[u] not in seen:
-                    seen.append(idx[u])
-            sels.append(seen)
-        L = "[" + "; ".join("%d" % i for i in range(len(cands))) + "]%nat"
-        ops = "(map (fun c : Z => (%s, c)) (repeat (%s)%%Z %d))" % (L, vlib.zlit(case["cap"]), len(sels))
-        ss = "[" + "; ".join("[" + "; ".join("%d" % i for i in s) + "]%nat" for s in sels) + "]"
-        hdr = "From Coq Require Import List ZArith.\nFrom Outrank Require Import Pipeline.Sampler.\nImport ListNotations."
-        v = vlib.coq_eval("E2Ecaprel", hdr, ["(valid_runb [] %s (derived_obs [] %s), steps_ok [] %s (derived_obs [] %s))" % (ops, ss, ops, ss)])[0]
-        ok, steps = v
-        same = [sorted(s) for s in sels] == [sorted({idx[ukey((dec(a), dec(b)))] for a, b, _ in bt[1]}) for bt in dval[3]]
-        if same:
-            return "the implementation's per-batch selections are the model's (C07's relation accepts them: valid_runb = %s)" % ok
-        if ok:
-            return ("C07's relation accepts the implementation's selection history (valid_runb = true): a valid sampler with another "
-                    "tie-breaking than the stable candidate-list order of sorted()")
-        bad = [i for i, s in enumerate(steps) if not s]
-        return "C07's relation REJECTS the implementation's selection history (valid_stepb false at batches %s)" % bad[:6]
-    except Exception as e:
-        return "relation check unavailable: %s: %s" % (type(e).__name__, e)
 
 
 # ---------------------------------------------------------------------------------------------------------------
@@ -418,13 +425,12 @@ def shrink(case, clause, root, budget_s=60):
         if not vs:
             break
         try:
-            rs = run_cases(vs, "%s_shr%d" % (root, rnd))
-            ms = coq_eval("E2Ecaps", [coq_expr(v) for v in vs], [len(v["text"]) for v in vs])
+            rs, pss, ms = run_both(vs, "%s_shr%d" % (root, rnd), "E2Ecaps")
         except vlib.Broken:
             break
         cand = None
-        for v, r, m in zip(vs, rs, ms):
-            d = compare(v, r, m)
+        for v, r, p, m in zip(vs, rs, pss, ms):
+            d = compare(v, r, p, m)
             if d is not None and d[0] == clause and (cand is None or E.size_of(v) < E.size_of(cand)):
                 cand = v
         if cand is None or E.size_of(cand) >= E.size_of(best):
@@ -458,21 +464,19 @@ def check(run, replay):
             run.cov["systematic_scope"] = ("every (ncols 2..5, mode, heuristic, cap 1..#candidates+1) with enough batches for every "
                                            "candidate to be evaluated at least twice: %d files" % len(g))
     root = os.path.join(vlib.CACHE, "e2ecap", str(os.getpid()))
-    with ThreadPoolExecutor(max_workers=2) as ex:      # the implementation and the model run side by side
-        fi = ex.submit(run_cases, cases, root)
-        fm = ex.submit(coq_eval, "E2Ecap", [coq_expr(c) for c in cases], [len(c["text"]) for c in cases])
-        results = fi.result()
-        mvals = fm.result()
-    run.oblige("correspondence: real ranking task = e2ecap model (vm_compute) on the same text and config: (a) whole pairwise_ranks.tsv "
-               "(pairs exact; scores within 1e-15 relative of the model's rational; ascending), (b) combination_estimation_counts.json = "
-               "final counter, (c) pairs evaluated by every batch = the batch's selection", True)
+    results, pss, mvals = run_both(cases, root, "E2Ecap")
+    run.oblige("correspondence (relational): the pairs the real ranking task evaluated in every batch are an admissible selection history "
+               "(sels_ok: C07's checker valid_runb on derived_obs, evaluated in Coq), and for THOSE selections (a) the whole "
+               "pairwise_ranks.tsv = e2ecap_core_sel (pairs exact; scores within 1e-15 relative; ascending), (b) "
+               "combination_estimation_counts.json = cap_counts_sel (Sampler.sel_count)", True)
 
     hist = {"family": {}, "ncols": {}, "B": {}, "s": {}, "batches": {}, "heuristic": {}, "tro": {}, "status": {}, "ncands": {},
             "cap_vs_ncands": {"binding": 0, "equal": 0, "above": 0}, "cap": {}, "never_selected_candidates_files": 0,
-            "constant_known_crash_at_os_remove": 0, "excluded": 0, "table_rows_compared": 0, "batch_selections_compared": 0,
-            "count_entries_compared": 0, "lines_total": 0}
+            "constant_known_crash_at_os_remove": 0, "excluded": 0, "table_rows_compared": 0, "batch_selections_checked": 0,
+            "count_entries_compared": 0, "lines_total": 0, "tie_breaking_differs_from_transcription": 0,
+            "selections_equal_transcription": 0}
     failing = []
-    for i, (c, r, m) in enumerate(zip(cases, results, mvals)):
+    for i, (c, r, p, m) in enumerate(zip(cases, results, pss, mvals)):
         mv = model_view(m)
         binding = case_binding(c, mv)
         run.count_case({k: c[k] for k in KEYS}, mv["status"] == 0 and binding and len(mv["sizes"]) >= 2)
@@ -486,14 +490,17 @@ def check(run, replay):
             hist["never_selected_candidates_files"] += 1
         if E.known_constant_crash(c, r):
             hist["constant_known_crash_at_os_remove"] += 1
-        d = compare(c, r, m)
+        d = compare(c, r, p, m)
         if d is not None and d[0] == "excluded":
             hist["excluded"] += 1
             continue
         if d is None:
             hist["table_rows_compared"] += len(r.get("pairwise") or [])
-            hist["batch_selections_compared"] += len(mv["sels"])
+            hist["batch_selections_checked"] += len(mv["isels"])
             hist["count_entries_compared"] += len(mv["counts"])
+            if mv["status"] == 0:
+                # informational only: admissible, but not the selections of the transcription Sampler.step (sorted() is stable)
+                hist["selections_equal_transcription" if mv["same"] else "tie_breaking_differs_from_transcription"] += 1
         else:
             failing.append((i, d))
 
@@ -508,16 +515,14 @@ def check(run, replay):
             t1 = time.time()
             case = shrink(case, d[0], root)
             t_shrink += time.time() - t1
-        r2, m2, d2, extra = results[i], mvals[i], d, ""
+        r2, p2, m2, d2, extra = results[i], pss[i], mvals[i], d, ""
         try:
-            r2 = run_cases([case], root + "_d", detail=True)[0]
-            m2 = coq_eval("E2Ecapd", [coq_expr(case)], [1])[0]
-            d2 = compare(case, r2, m2) or d
-            dv = coq_eval("E2Ecapd", [coq_expr(case, "e2ecap_detail")], [1])[0]
+            rs, ps2, ms = run_both([case], root + "_d", "E2Ecapd", detail=True)
+            r2, p2, m2 = rs[0], ps2[0], ms[0]
+            d2 = compare(case, r2, p2, m2) or d
             if d2[2] == L_TABLE:
+                dv = coq_eval("E2Ecapd", [coq_expr(case, p2[0], "e2ecap_detail_rel")], [1])[0]
                 extra = diagnose_table(case, r2, dv)
-            elif d2[2] in (L_SAMPLER, L_COUNTS):
-                extra = relation_verdict(case, r2, dv)
         except vlib.Broken as b:
             extra = "diagnosis unavailable: %s" % b.obligation
         mv2 = model_view(m2)
@@ -525,10 +530,12 @@ def check(run, replay):
         impl = {"pairwise": r2.get("pairwise"), "counts": r2.get("counts"), "exit": r2.get("exit"), "error": r2.get("error"),
                 "nbatches": r2.get("nbatches"), "batch_sizes": [b.get("n") for b in (r2.get("batches") or [])],
                 "batch_pairs": [b.get("pairs") for b in (r2.get("batches") or [])], "traceback": r2.get("traceback")}
-        model = {"status": mv2["status"], "ncands": mv2["ncands"], "batch_sizes": mv2["sizes"], "selections": mv2["sels"],
-                 "counts": mv2["counts"],
-                 "table": [(dec(a), dec(b), "%s/%s" % (Fraction(n, dd).numerator, Fraction(n, dd).denominator), n / dd) for a, b, n, dd in mv2["table"]]}
-        run.violation("counterexample", "E2Ecap correspondence (E2Ecap_spec / _counts / _selections): real ranking task vs composed model with the sampler threaded",
+        model = {"status": mv2["status"], "ncands": mv2["ncands"], "batch_sizes": mv2["sizes"],
+                 "implementation_selections_as_candidate_ids": mv2["isels"], "sels_ok": mv2["ok"], "steps_ok": mv2["steps"],
+                 "selections_equal_transcription": mv2["same"], "counts_for_these_selections": mv2["counts"],
+                 "table_for_these_selections": [(dec(a), dec(b), "%s/%s" % (Fraction(n, dd).numerator, Fraction(n, dd).denominator), n / dd)
+                                                for a, b, n, dd in mv2["table"]]}
+        run.violation("counterexample", "E2Ecap correspondence (E2Ecap_spec_rel / _fair_rel / _counts_rel): real ranking task vs the relational composed model",
                       case=case, impl=impl, model=model,
                       clause="%s: %s || %s || %s || %s" % (d2[0], d2[1], d2[2], impl_counts_summary(r2), extra))
     if failing:
@@ -536,10 +543,10 @@ def check(run, replay):
             len(failing), "; ".join("%s x%d" % (k, v["count"]) for k, v in reported.items())))
     run.cov["input_distribution"] = hist
     run.cov["exhaustive"] = False
-    run.cov["tolerance"] = ("pairs exact; score: the float written to pairwise_ranks.tsv equals the correctly rounded double of the model's "
-                            "rational or lies within 1e-15 relative of it (as E2E); order: non-decreasing floats (ties in any order); "
-                            "Constant: 0.0 exactly, unordered pairs each once; counts: dictionaries equal (key = str(tuple), order free); "
-                            "per-batch evaluated pairs: as sets of unordered pairs with the row multiplicity (2 rows per pair, 1 for Constant)")
+    run.cov["tolerance"] = ("selections: admissibility decided by C07's Coq checker (ties free); pairs exact; score: the float written to "
+                            "pairwise_ranks.tsv equals the correctly rounded double of the model's rational or lies within 1e-15 relative of it "
+                            "(as E2E); order: non-decreasing floats (ties in any order); Constant: 0.0 exactly, unordered pairs each once; "
+                            "counts: dictionaries equal (key = str(tuple), order free)")
     run.samples = [{k: (v if k != "text" else v[:300]) for k, v in c.items()} for c in cases[:3]]
     run.assumptions += [
         "heuristic in {max-value-coverage, Constant}; --data_source csv-raw; interaction_order 1, no transformers / noise / "
@@ -548,20 +555,22 @@ def check(run, replay):
         "combination_number_upper_bound >= 1 (0 evaluates nothing: the task exits without a table; negative = Python slice; both outside "
         "the fragment, the model answers status 1)",
         "one ranking task per process: the process-global counter GLOBAL_PRIOR_COMB_COUNTS starts empty (the harness clears the module "
-        "globals between files and re-seeds `random` as at import; the shuffle only permutes the evaluation order: E2Ecap_shuffle_independent)",
+        "globals between files); the order of evaluation inside a batch is free (E2Ecap_shuffle_independent)",
         "header line ASCII, names distinct, without commas / quotes / surrounding blanks; label among them; B >= 1, s >= 1",
         "the file is read as latin-1: text = list of byte values; no NUL, no field longer than csv.field_size_limit()",
         "Constant without a tail batch ends in FileNotFoundError at os.remove('ranking_checkpoint_tmp.tsv') AFTER the outputs "
         "were written (known observation of C08/C09, notes/E2E.md); the outputs written before are compared, the exception is counted",
-        "tie-breaking among equally often evaluated candidates is the order of the candidate list (sorted() is stable): the model is the "
-        "transcription, and a different but fair tie-breaking is reported (with C07's relation verdict in the clause text)",
+        "tie-breaking among equally often evaluated candidates is FREE (property C07): any selection history accepted by C07's relation "
+        "is admissible; histories that differ from the transcription Sampler.step are only counted (tie_breaking_differs_from_transcription)",
     ]
-    run.trusted += ["harness: tools/props/e2ecap.py (generator, comparison, diagnosis, shrinker), the parts of tools/props/e2e.py it imports "
-                    "(row generators, float-vs-rational decision, table comparison, shrink variants), tools/impl/impl_e2ecap.py (file writer, "
-                    "serial pool object, recording wrapper around compute_batch_ranking) and the parts of tools/impl/impl_c08_lib.py it imports",
+    run.trusted += ["harness: tools/props/e2ecap.py (generator, reading the evaluated pairs off the recorded triplets, comparison, diagnosis, "
+                    "shrinker), the parts of tools/props/e2e.py it imports (row generators, float-vs-rational decision, table comparison, "
+                    "shrink variants), tools/impl/impl_e2ecap.py (file writer, serial pool object, recording wrapper around "
+                    "compute_batch_ranking) and the parts of tools/impl/impl_c08_lib.py it imports",
+                    "CapCompose.id_of_pair (names -> candidate id, either orientation; harness glue evaluated inside Coq)",
                     "coqparse.py (reads the terms coqc prints)",
-                    "pandas / numpy / csv.reader / json as in E2E; Python's sorted() is stable; str(tuple) of ASCII names is the same in the "
-                    "harness interpreter and the repository's",
+                    "pandas / numpy / csv.reader / json as in E2E; str(tuple) of ASCII names is the same in the harness interpreter and "
+                    "the repository's",
                     "the layer models are imported unchanged; their own ties to the code are the checks C16, C08, C06, C07, C05 and E2E"]
 
 
